@@ -6,8 +6,8 @@
 #include "world.h"
 #include "peek.h"
 
-enum { D_NONE = 0, D_UNKNOWN_CA, D_EXPIRED, D_NOT_YET_VALID, D_NAME, D_FORGED_CERT, D_POP_WRONG_SIG, D_POP_OTHER_DATA, D_POP_OMITTED, D_FORGED_COPIED_SIG, D_RESUME_UNAUTH, D_POP_OMITTED_CA_AS_LEAF, D_N };
-static const char *D_NAME_S[] = { "none", "unknown_ca", "expired", "not_yet_valid", "name_mismatch", "forged_cert_sig", "pop_wrong_signature", "pop_signature_over_other_data", "pop_message_omitted", "forged_cert_with_copied_root_signature", "resumes_session_made_without_client_auth", "pop_message_omitted_with_ca_certificate_as_leaf" };
+enum { D_NONE = 0, D_UNKNOWN_CA, D_EXPIRED, D_NOT_YET_VALID, D_NAME, D_FORGED_CERT, D_POP_WRONG_SIG, D_POP_OTHER_DATA, D_POP_OMITTED, D_FORGED_COPIED_SIG, D_RESUME_UNAUTH, D_POP_OMITTED_CA_AS_LEAF, D_PATHLEN, D_N };
+static const char *D_NAME_S[] = { "none", "unknown_ca", "expired", "not_yet_valid", "name_mismatch", "forged_cert_sig", "pop_wrong_signature", "pop_signature_over_other_data", "pop_message_omitted", "forged_cert_with_copied_root_signature", "resumes_session_made_without_client_auth", "pop_message_omitted_with_ca_certificate_as_leaf", "chain_longer_than_root_pathlen_allows" };
 static const char *CB_S[] = { "none", "strict", "allow_all", "allow_one" };
 
 struct KexChoice { int ver; uint16_t suite; int kind; bool has_sig_pop; };   // has_sig_pop: the server signs something (SKE / CertificateVerify)
@@ -39,6 +39,7 @@ static Plan c04_gen(uint64_t seed, int tier, uint64_t index) {
     if (is_pop(defect) && !vsrv && !KEX[kex].has_sig_pop) { defect = D_FORGED_CERT; }
     if (defect == D_NAME && vsrv) { defect = D_EXPIRED; }
     if (defect == D_RESUME_UNAUTH && !vsrv) { defect = D_FORGED_COPIED_SIG; }
+    if (defect == D_PATHLEN && KEX[kex].kind != KK_EC256) { defect = D_FORGED_CERT; }
     if (defect == D_POP_OMITTED_CA_AS_LEAF && !vsrv) { defect = D_POP_OMITTED; if (!KEX[kex].has_sig_pop) { defect = D_FORGED_CERT; } }          // servers do not match client names
     int cb = (int) r.below(4);
     if (vsrv && cb == CB_NONE) { cb = CB_STRICT; }                 // a server without a callback does not request a client certificate at all
@@ -65,6 +66,7 @@ static std::vector<Plan> c04_fixed(int tier) {
                 if (d == D_NAME && vsrv) { continue; }
                 if (d == D_RESUME_UNAUTH && !vsrv) { continue; }
                 if (d == D_POP_OMITTED_CA_AS_LEAF && !vsrv) { continue; }
+                if (d == D_PATHLEN && KEX[kex].kind != KK_EC256) { continue; }
                 for (int cb = 0; cb < 4; cb++) {
                     if (vsrv && cb == CB_NONE) { continue; }
                     if (cb == CB_ALLOW_ONE) {
@@ -117,6 +119,8 @@ static RunResult c04_exec(const Plan &p) {
         if (vsrv) { pc.client_auth = true; pc.client_identity = K.kind == KK_ECDH_RSA || K.kind == KK_ED25519 ? KK_EC256 : K.kind; pc.cb_s = cb; pc.cb_c = CB_ALLOW_ALL; }
         else { pc.cb_c = cb; pc.cb_allow_alert_c = (int) p.get("cb_alert"); }
         if (defect == D_POP_OMITTED_CA_AS_LEAF) { pc.client_cert_is_ca = true; }     // a public certificate that validates (it IS the trust anchor) and whose keyUsage lacks digitalSignature; nobody here holds its key
+        // the peer's leaf hangs below a sub CA that its root (the only trust anchor) forbids with pathLenConstraint 0: every signature is genuine, the names chain, only the length is wrong
+        if (defect == D_PATHLEN && K.kind == KK_EC256) { if (vsrv) { pc.client_identity = KK_EC256_PATHLEN; } else { pc.server_identity = KK_EC256_PATHLEN; } }
         if (has(D_UNKNOWN_CA) && !vsrv) { pc.client_trusts_server = false; }
         if (has(D_FORGED_CERT) || defect == D_FORGED_COPIED_SIG) { if (vsrv) { pc.forge_client_cert = true; } else { pc.forge_server_cert = true; } pc.forge_mode = defect == D_FORGED_COPIED_SIG ? 1 : 0; }
         // every test certificate is issued for DNS:localhost / IP:127.0.0.1; expected names that are NOT that name, from unrelated to near misses
@@ -230,5 +234,5 @@ static ModuleRegistrar reg({ "C04", "auth", "exploration",
     c04_gen, c04_exec, 1500, 40000, 75, 1200,
     { "core (incl. corelib_date.c on the simulated wall clock)", "crypto (X.509 parsing and chain validation)", "matrixssl" },
     { "transport", "applications and their certificate callbacks", "clock (per-node wall-clock skew)", "entropy", "allocator front-end", "psSign seam (corrupts the byzantine peer's signatures)" },
-    { "the byzantine peer is MatrixSSL itself with defective credentials or corrupted signatures", "constraint defects needing minted certificates (CA:FALSE issuer, pathLen, keyUsage, CRL) are not generated yet" },
+    { "the byzantine peer is MatrixSSL itself with defective credentials or corrupted signatures", "of the constraint defects needing minted certificates only pathLenConstraint is generated (minted chain, sim/assets/pathlen_chain.h); CA:FALSE issuer, keyUsage and CRL defects are not" },
     "asan", c04_fixed, false });
